@@ -20,7 +20,7 @@ ACCOUNTS = ["default", "0", "5", "2^31-2", "2^31-1", "2^31", "-1", "x"]
 BOUNDS = ["-1", "0", "1", "3", "2^31-1", "2^31", "2^31+1", "2^32-2", "2^32-1", "x"]
 FILES = ["none", "absent", "existing", "dir", "symlink-to-file", "dangling-symlink", "parent-missing", "empty-string",
          "symlink-rel-in-subdir", "symlink-up", "symlink-abs-to-file", "symlink-to-dir", "existing-dotdot", "absent-in-subdir"]
-PWS = ["none", "ascii", "nfkd-sensitive", "blank-padded", "empty"]
+PWS = ["none", "ascii", "nfkd-sensitive", "blank-padded", "empty", "json-like"]
 
 
 def all_vectors():
